@@ -9,6 +9,7 @@ package main
 
 import (
 	"fmt"
+	"go/constant"
 	"go/token"
 	"go/types"
 	"os"
@@ -81,6 +82,12 @@ type lsummary struct {
 	netRel   map[lockKey]bool // released though not acquired: release wrapper
 	tryKey   *lockKey         // function result == TryLock on this key
 	tryMode  byte
+	// conditional acquire wrapper: the function returns (…, ok bool) and holds condKey at exactly the returns whose ok is
+	// the constant true (lockNode(id) (lock *sync.Mutex, ok bool)): for its callers the call is a TryLock whose outcome is
+	// result number condIdx
+	condKey  *lockKey
+	condMode byte
+	condIdx  int
 	requires map[string]string // guard class -> first field needing it (LCK-5), unmet inside the function
 	// paramHeld[k]: lock classes held (must) whenever the function calls its k-th parameter (a callback)
 	paramHeld map[int]map[string]bool
@@ -321,6 +328,30 @@ func (lr *lckResult) resolveLock(fn *ssa.Function, v ssa.Value, depth int) (lock
 			if o := calleeObj(&t.Call); o != nil && o.Pkg() != nil && o.Pkg().Path() == "sync" && strings.HasPrefix(shortName(o), "Map.") {
 				if fa, ok := t.Call.Args[0].(*ssa.FieldAddr); ok {
 					return lockKey{fieldOwner(fa) + "." + fieldName(fa) + "[*]", "*"}, true
+				}
+			}
+			// a module function that hands out a lock among its results: what it returns there (a nil is no lock)
+			if cf := t.Call.StaticCallee(); cf != nil && len(cf.Blocks) > 0 && inModule(cf) {
+				var k lockKey
+				n := 0
+				for _, b := range cf.Blocks {
+					rt, ok := b.Instrs[len(b.Instrs)-1].(*ssa.Return)
+					if !ok || x.Index >= len(rt.Results) || isNilConst(rt.Results[x.Index]) {
+						continue
+					}
+					ek, ok := lr.resolveLock(cf, rt.Results[x.Index], depth+1)
+					if !ok || (n > 0 && ek.class != k.class) {
+						return lockKey{}, false
+					}
+					if n > 0 && ek.inst != k.inst {
+						ek.inst = "*"
+					}
+					k = ek
+					n++
+				}
+				if n > 0 {
+					k.inst = mapInst(k.inst, fn, t.Call.Args)
+					return k, true
 				}
 			}
 		case *ssa.TypeAssert:
@@ -695,6 +726,7 @@ func (lr *lckResult) analyse(fn *ssa.Function, report bool) bool {
 	work := []*ssa.BasicBlock{fn.Blocks[0]}
 	inWork := map[*ssa.BasicBlock]bool{fn.Blocks[0]: true}
 	exitStates := []lstate{}
+	exitRets := []*ssa.Return{}
 	visitedExit := map[*ssa.BasicBlock]bool{}
 	name := fnName(fn)
 
@@ -980,6 +1012,19 @@ func (lr *lckResult) analyse(fn *ssa.Function, report bool) bool {
 						}{tr(*cs.tryKey), cs.tryMode}
 					}
 				}
+				if cs.condKey != nil {
+					if v, ok := ins.(ssa.Value); ok && v.Referrers() != nil {
+						for _, ref := range *v.Referrers() {
+							if ex, ok := ref.(*ssa.Extract); ok && ex.Index == cs.condIdx {
+								addAcq(tr(*cs.condKey), cs.condMode, shortFn(callee), ins.Pos())
+								tryPending[ex] = struct {
+									k    lockKey
+									mode byte
+								}{tr(*cs.condKey), cs.condMode}
+							}
+						}
+					}
+				}
 				// requirements of the callee (guards it needs from its caller)
 				recvLocal := len(c.Args) > 0 && (baseIsLocalAlloc(c.Args[0], 0) || isFreshObject(c.Args[0]))
 				if !(callee.Parent() != nil && c.StaticCallee() == nil) && !recvLocal { // callbacks are checked where they are created; objects under construction are private
@@ -1035,6 +1080,7 @@ func (lr *lckResult) analyse(fn *ssa.Function, report bool) bool {
 				}
 			}
 			exitStates = append(exitStates, es)
+			exitRets = append(exitRets, rt)
 			continue
 		}
 		for si, succ := range b.Succs {
@@ -1071,6 +1117,18 @@ func (lr *lckResult) analyse(fn *ssa.Function, report bool) bool {
 				}
 			}
 		}
+	}
+	// a conditional acquire wrapper: every return gives a constant for the last, boolean, result; the returns that say
+	// true all hold the same one lock (must, not released by a defer), the returns that say false hold none
+	if ck, cm, ci, ok := condWrapper(exitStates, exitRets); ok {
+		if sum.condKey == nil || *sum.condKey != ck || sum.condIdx != ci {
+			sum.condKey, sum.condMode, sum.condIdx = &ck, cm, ci
+			changed = true
+		}
+		exitStates = nil
+	} else if sum.condKey != nil {
+		sum.condKey = nil
+		changed = true
 	}
 	// exits: what is still held (not released by a defer)
 	netHold := map[lockKey]byte{}
@@ -1144,6 +1202,53 @@ func (lr *lckResult) analyse(fn *ssa.Function, report bool) bool {
 	}
 	// deferred releases of locks never acquired here are net releases too (rare)
 	return changed
+}
+
+// condWrapper: see lsummary.condKey.
+func condWrapper(states []lstate, rets []*ssa.Return) (lockKey, byte, int, bool) {
+	if len(states) < 2 || len(states) != len(rets) {
+		return lockKey{}, 0, 0, false
+	}
+	bi := len(rets[0].Results) - 1
+	if bi < 1 {
+		return lockKey{}, 0, 0, false
+	}
+	var key lockKey
+	var mode byte
+	nTrue, nFalse := 0, 0
+	for i, es := range states {
+		rt := rets[i]
+		if len(rt.Results) != bi+1 {
+			return lockKey{}, 0, 0, false
+		}
+		c, ok := rt.Results[bi].(*ssa.Const)
+		if !ok || c.Value == nil || !types.Identical(c.Type().Underlying(), types.Typ[types.Bool]) {
+			return lockKey{}, 0, 0, false
+		}
+		var heldKeys []lockKey
+		for k, h := range es {
+			if strings.HasPrefix(k.class, "defer:") {
+				continue
+			}
+			if _, deferred := es[lockKey{"defer:" + k.class, "*"}]; deferred || !h.must {
+				return lockKey{}, 0, 0, false
+			}
+			heldKeys = append(heldKeys, k)
+		}
+		if constant.BoolVal(c.Value) {
+			if len(heldKeys) != 1 || (nTrue > 0 && heldKeys[0] != key) {
+				return lockKey{}, 0, 0, false
+			}
+			key, mode = heldKeys[0], es[heldKeys[0]].mode
+			nTrue++
+		} else {
+			if len(heldKeys) != 0 {
+				return lockKey{}, 0, 0, false
+			}
+			nFalse++
+		}
+	}
+	return key, mode, bi, nTrue > 0 && nFalse > 0
 }
 
 func shortFn(fn *ssa.Function) string {
